@@ -327,10 +327,178 @@ impl Part for Core {
     }
 }
 
-crate::declare_parts!(Core, Pinned);
+
+/// Unpacking assignments whose right-hand side reads the names being assigned (swaps, rotations,
+/// `set a, b = x, a + 1`): the right-hand side is evaluated completely before any target is
+/// bound, in `set` and in `with`, at template level, in a loop, in a macro and in an if-branch.
+#[derive(Clone, Debug, Serialize, Deserialize)]
+pub struct AssignCase {
+    /// false = set, true = with
+    pub with: bool,
+    /// right-hand side written as a list literal instead of a tuple
+    pub list: bool,
+    /// indices into a, b, c, d (distinct)
+    pub targets: Vec<u8>,
+    /// per target: (index of the name read, constant added to it)
+    pub items: Vec<(u8, i8)>,
+    /// 0 template level, 1 loop body, 2 macro body, 3 if-branch
+    pub wrap: u8,
+    /// the first two targets form a nested tuple: `(a, b), c = (x, y), z`
+    pub nested: bool,
+}
+
+pub struct Assignments;
+
+const NAMES4: [&str; 4] = ["a", "b", "c", "d"];
+
+fn assign_program(c: &AssignCase) -> Vec<Stmt> {
+    let t = |s: &str| Stmt::Text(s.to_string());
+    let name = |i: u8| NAMES4[i as usize % 4].to_string();
+    let print_all = |out: &mut Vec<Stmt>| {
+        out.push(t("["));
+        for (i, n) in NAMES4.iter().enumerate() {
+            if i > 0 {
+                out.push(t("|"));
+            }
+            out.push(Stmt::Emit(Expr::var(n)));
+        }
+        out.push(t("]"));
+    };
+    let item = |(v, k): (u8, i8)| {
+        if k == 0 {
+            Expr::var(&name(v))
+        } else {
+            Expr::Bin(BinOp::Add, Box::new(Expr::var(&name(v))), Box::new(Expr::int(k.unsigned_abs() as i128)))
+        }
+    };
+    let n = c.targets.len().min(c.items.len());
+    let mut targets: Vec<Target> = c.targets[..n].iter().map(|i| Target::Name(name(*i))).collect();
+    let mut items: Vec<Expr> = c.items[..n].iter().map(|x| item(*x)).collect();
+    let seq = |v: Vec<Expr>| if c.list { Expr::List(v) } else { Expr::Tuple(v) };
+    if c.nested && n >= 3 {
+        let rest_t = targets.split_off(2);
+        let rest_i = items.split_off(2);
+        targets = std::iter::once(Target::Tuple(targets)).chain(rest_t).collect();
+        items = std::iter::once(seq(items)).chain(rest_i).collect();
+    }
+    let target = Target::Tuple(targets);
+    let value = seq(items);
+    let mut inner = vec![];
+    if c.with {
+        let mut body = vec![];
+        print_all(&mut body);
+        inner.push(Stmt::With { bindings: vec![(target, value)], body });
+    } else {
+        inner.push(Stmt::Set { target, value });
+    }
+    print_all(&mut inner);
+    let mut out = vec![];
+    for (i, n) in NAMES4.iter().enumerate() {
+        out.push(Stmt::Set { target: Target::Name(n.to_string()), value: Expr::int(i as i128 + 1) });
+    }
+    match c.wrap % 4 {
+        0 => out.extend(inner),
+        1 => out.push(Stmt::For {
+            target: Target::Name("i".into()),
+            iter: Expr::List(vec![Expr::int(1), Expr::int(2)]),
+            filter: None,
+            recursive: false,
+            body: inner,
+            else_: None,
+        }),
+        2 => {
+            out.push(Stmt::Macro { name: "mac0".into(), params: NAMES4.iter().map(|n| (n.to_string(), None)).collect(), body: inner });
+            out.push(Stmt::Emit(Expr::Call(
+                Box::new(Expr::var("mac0")),
+                vec![Arg::Pos(Expr::int(5)), Arg::Pos(Expr::int(6)), Arg::Pos(Expr::int(7)), Arg::Pos(Expr::int(8))],
+            )));
+        }
+        _ => out.push(Stmt::If { branches: vec![(Expr::var("cb"), inner)], else_: None }),
+    }
+    print_all(&mut out);
+    out
+}
+
+impl Part for Assignments {
+    type Case = AssignCase;
+    const NAME: &'static str = "unpacking_assignments";
+
+    fn strategy(_tier: Tier) -> BoxedStrategy<AssignCase> {
+        (
+            any::<bool>(),
+            any::<bool>(),
+            Just(vec![0u8, 1, 2, 3]).prop_shuffle(),
+            2usize..=4,
+            prop::collection::vec((0u8..4, prop_oneof![3 => Just(0i8), 1 => 1i8..4]), 4),
+            0u8..4,
+            any::<bool>(),
+        )
+            .prop_map(|(with, list, mut targets, n, mut items, wrap, nested)| {
+                targets.truncate(n);
+                items.truncate(n);
+                AssignCase { with, list, targets, items, wrap, nested }
+            })
+            .boxed()
+    }
+
+    fn enumeration(_tier: Tier) -> Vec<AssignCase> {
+        // every pair of targets with every pair of names read (swaps included), all forms
+        let mut out = vec![];
+        for with in [false, true] {
+            for list in [false, true] {
+                for wrap in 0..4u8 {
+                    for t0 in 0..4u8 {
+                        for t1 in 0..4u8 {
+                            if t0 == t1 {
+                                continue;
+                            }
+                            for r0 in 0..4u8 {
+                                for r1 in 0..4u8 {
+                                    for k in [0i8, 1] {
+                                        out.push(AssignCase { with, list, targets: vec![t0, t1], items: vec![(r0, 0), (r1, k)], wrap, nested: false });
+                                    }
+                                }
+                            }
+                        }
+                    }
+                }
+            }
+        }
+        out
+    }
+
+    fn check(c: &AssignCase) -> Verdict {
+        let body = assign_program(c);
+        let mut worst = Verdict::pass(true);
+        for ctx_variant in 0..2u8 {
+            let mut v = compare(&body, ctx_variant);
+            v.nontrivial = c.items.iter().any(|(r, _)| c.targets.contains(r));
+            if v.labels.contains(&"outside_fragment") {
+                v.set_fail("assignment_program_outside_fragment", "the reference interpreter does not cover an unpacking assignment".to_string());
+            }
+            if v.fail.is_some() {
+                return v;
+            }
+            worst = v;
+        }
+        if c.with {
+            worst.labels.push("with_binding");
+        }
+        if c.nested && c.targets.len() >= 3 {
+            worst.labels.push("nested_targets");
+        }
+        worst
+    }
+
+    fn show(c: &AssignCase) -> serde_json::Value {
+        serde_json::json!({"source": print::template_default(&assign_program(c))})
+    }
+}
+
+crate::declare_parts!(Core, Pinned, Assignments);
 
 pub fn run(ctx: &mut Ctx) {
-    ctx.rule = "well-typed programs of the core fragment from a scope-tracking generator driven by a proptest byte tape (expressions over ints, strings, bools, lists, maps: arithmetic, comparison chains, and/or/not, in, ~, if-expressions, subscripts, attribute access, filters upper/lower/trim/length/sum/join/sort/reverse/string/default/replace/abs, tests defined/odd/even/divisibleby; statements: set, if/elif/else, for with else, loop filter, tuple unpacking, loop.index/index0/revindex/revindex0/first/last/length/previtem/nextitem/depth/cycle/changed printed in every loop, set-blocks with filters, with (incl. later bindings seeing earlier ones), filter blocks, macros with literal defaults, positional and keyword arguments and caller(), call blocks with parameters, optional break/continue), 4 contexts; after every scoped construct probes print `name is defined` / `name` for names assigned inside and before it. Oracle: an independent reference interpreter of the documented semantics (refint.rs) must give the same output and agree on error-or-not. Non-trivial: a loop or macro call and two different scoped constructs nested. Distinct by case.".into();
+    ctx.rule = "well-typed programs of the core fragment from a scope-tracking generator driven by a proptest byte tape (expressions over ints, strings, bools, lists, maps: arithmetic, comparison chains, and/or/not, in, ~, if-expressions, subscripts, attribute access, filters upper/lower/trim/length/sum/join/sort/reverse/string/default/replace/abs, tests defined/odd/even/divisibleby; statements: set, if/elif/else, for with else, loop filter, tuple unpacking, loop.index/index0/revindex/revindex0/first/last/length/previtem/nextitem/depth/cycle/changed printed in every loop, set-blocks with filters, with (incl. later bindings seeing earlier ones), filter blocks, macros with literal defaults, positional and keyword arguments and caller(), call blocks with parameters, optional break/continue), 4 contexts; part unpacking_assignments: `set`/`with` with tuple targets (2-4 names, optionally nested) from a tuple or list literal whose items read the names being assigned (all two-target forms enumerated: swaps, rotations, `x, a + 1`), at template level, in a loop, in a macro, in an if-branch; after every scoped construct probes print `name is defined` / `name` for names assigned inside and before it. Oracle: an independent reference interpreter of the documented semantics (refint.rs) must give the same output and agree on error-or-not. Non-trivial: a loop or macro call and two different scoped constructs nested. Distinct by case.".into();
     ctx.assumptions = vec![
         "refint.rs implements the documented semantics; where the documentation is silent the generator does not go (macro defaults referring to parameters, printing multi-entry maps, reassigning template-level variables after a macro that reads them was declared, strings with quotes inside printed lists)".into(),
         "programs the reference interpreter flags as outside its fragment are skipped (label outside_fragment)".into(),
@@ -338,5 +506,7 @@ pub fn run(ctx: &mut Ctx) {
     preamble(ctx);
     let t = ctx.tier;
     ctx.run_enumerated::<Pinned>(Pinned::enumeration(t), false);
+    ctx.run_enumerated::<Assignments>(Assignments::enumeration(t), false);
+    ctx.run_part::<Assignments>(t.pick(20_000, 400_000));
     ctx.run_part::<Core>(t.pick(30_000, 12_000_000));
 }
